@@ -64,6 +64,10 @@ def c_get_name(kind):
             base = SymStr(z3.String("base"))
             if kind == "override":
                 sig = Signal(); sig.name_override = base; ns.name_dict = {}
+            elif kind == "stale-port-attributes":
+                # attributes an EARLIER conversion left on the very Signal object (verilog._generate_module stores sig.name / sig.port / sig.type on
+                # every port): a new namespace must not trust them - the name it hands out is recorded like any other
+                sig = Signal(); ns.name_dict = {sig: base}; sig.port = True; sig.name = base; sig.type = "wire"; sig.direction = "input"
             else:
                 sig = Signal(); ns.name_dict = {sig: base}
             ctx.assume(SymBool(z3.InRe(base.t, IDENT))); ctx.assume(SymBool(z3.Length(base.t) <= 8))
@@ -203,13 +207,29 @@ def _corpus():
                 self.specials.table = m0 = Memory(8, 4, name="table"); self.specials.mem2 = m1 = Memory(8, 4, name="table"); self.specials.mem3 = m2 = Memory(4, 4, name="storage"); self.specials.mem4 = m3 = Memory(4, 4, name="storage")
                 ps = [m.get_port(write_capable=True) for m in (m0, m1, m2, m3)]; self.specials += ps
                 self.st = Signal(2, name_override="storage")
+                self.specials.lut_u = mu = Memory(8, 4, init=[1, 2, 3, 4], name="LUT"); self.specials.lut_l = ml = Memory(8, 4, init=[9, 8, 7, 6], name="lut")     # identifiers differing by case only
+                pq = [m.get_port() for m in (mu, ml)]; self.specials += pq
+                self._c02_mems = [m0, m1, m2, m3, mu, ml]; ps = ps + pq
                 self.specials += Instance("checker", name="checker", i_a=self.w, o_q=Signal(name="iq0")), Instance("checker", name="checker", i_a=self.e, o_q=Signal(name="iq1")), Instance("BUF", name="table", i_a=self.w, o_q=Signal(name="iq2"))
-                self.ports = [x for p_ in ps for x in (p_.adr, p_.dat_w, p_.we, p_.dat_r)]
+                self.ports = [x for p_ in ps for x in (p_.adr, p_.dat_w, p_.we, p_.dat_r) if x is not None]
                 self.comb += self.o.eq(Cat(self.w, self.l, self.e, self.st) ^ ps[0].dat_r ^ ps[1].dat_r)
                 self.sync += self.st.eq(self.st + 1)
         d = T(); return d, set(d.ports) | {d.o, d.s0.input, d.s1.input, d.s0.o, d.s1.o, d.w, d.l, d.e}
     out.append(("keywords-and-equal-names-via-user-names(signals,memories,instances)", kwnames))
     return out
+
+def _convert_twice(d, ios, name):
+    """two conversions of the SAME objects (the fragment is copied shallowly: signals, memories and instances are shared, as when a design is
+    converted again in one process): -> (first ConvOutput, second ConvOutput)"""
+    from litex.gen.fhdl.verilog import convert
+    from migen.fhdl.tools import list_clock_domains
+    from vf.fhdl2smt import copy_fragment
+    f = d.get_fragment(); ios = set(ios)
+    for cdn in sorted(list_clock_domains(f)):
+        try: f.clock_domains[cdn]
+        except KeyError:
+            cd = ClockDomain(cdn); f.clock_domains.append(cd); ios |= {cd.clk, cd.rst}
+    return convert(copy_fragment(f), ios=set(ios), name=name), convert(copy_fragment(f), ios=set(ios), name=name)
 
 def _convert(d, ios, name):
     """real convert(); a 'sys' clock domain is supplied as the platform/builder would (clk/rst become ports)"""
@@ -237,8 +257,15 @@ def c_corpus():
     rk = vmod._ieee_1800_2017_verilog_reserved_keywords
     for name, mkd in _corpus():
         d, ios = mkd()
-        r = _convert(d, ios, name); v = r.main_source
+        r, r_again = _convert_twice(d, ios, name); v = r.main_source
         names = _decls(v)
+        # converting the same objects again gives the same text (apart from the date) and again unique names: nothing a conversion leaves behind on the
+        # objects (sig.name, sig.port, lowered ports ...) may steer the next one
+        strip = lambda t: "\n".join(l for l in t.splitlines() if not l.startswith("//") and "Date" not in l)
+        n2 = _decls(r_again.main_source)
+        same = strip(r_again.main_source) == strip(v) and r_again.data_files == r.data_files
+        out.append(res(f"ens.reconversion-of-the-same-objects[{name}]", "ensures", PROVED if same and len(set(n2)) == len(n2) else VIOLATED, 0, "executed (two real convert() calls on the same signals / specials)",
+                       info="" if same else "second conversion differs: " + str([l for l in strip(r_again.main_source).splitlines() if l not in set(strip(v).splitlines())][:3])))
         from contracts.C01_verilog import split_instances
         try: names += [vi["name"] for vi in split_instances(v)[1]]                    # instance names share the module's name space (IEEE 1364 12.7)
         except Exception as e: out.append(res(f"ens.decl-unique-legal[{name}]", "ensures", UNKNOWN, 0, "", info=f"instances not parsed: {e}")); continue
@@ -247,6 +274,16 @@ def c_corpus():
         # exhaustive over the finite keyword list, on the namespace the real convert() built
         unres = sorted(k for k in rk if k not in r.ns.used)
         bad_kw = [k for k in sorted(rk) if r.ns.get_name(Signal(name_override=k)) in rk] if not unres else unres
+        # memory initialisation files: every $readmemh names a data file of this conversion, no two memories share one, and the file holds that memory's words
+        rm = re.findall(r'\$readmemh\("([^"]+)",\s*([A-Za-z_][A-Za-z0-9_$]*)\)', v)
+        mems = {r.ns.get_name(sp): sp for sp in getattr(d, "_c02_mems", [])}
+        badf = [f for f, _ in rm if f not in r.data_files] + [f for f, _ in rm if [x for x, _ in rm].count(f) > 1]
+        for f, mn in rm:
+            sp = mems.get(mn)
+            if sp is not None and f in r.data_files and [int(x, 16) for x in r.data_files[f].split()] != [int(w) for w in sp.init]: badf.append(f"{f}: contents are not the init words of {mn}")
+        if rm or mems:
+            out.append(res(f"ens.memory-data-files[{name}]", "ensures", PROVED if not badf and len(rm) >= len([m_ for m_ in mems.values() if m_.init]) else VIOLATED, 0, "executed on the real convert() output",
+                           files=len(rm), info=f"{badf[:3]}" if badf else ""))
         out.append(res(f"ens.namespace-reserves-all-keywords[{name}]", "ensures", PROVED if not unres and not bad_kw else VIOLATED, 0, "executed on the namespace built by the real convert(); exhaustive over the keyword list",
                        keywords=len(rk), info=f"keywords a later request may receive verbatim: {(unres or bad_kw)[:6]}" if unres or bad_kw else ""))
         out.append(res(f"ens.decl-unique-legal[{name}]", "ensures", PROVED if names and not dup and not resv else (VACUOUS if not names else VIOLATED), 0, "declaration scan of the real convert() output", decls=len(names), info=f"dup={dup} reserved={resv}" if dup or resv else ""))
@@ -345,7 +382,7 @@ def c_name_dict_bounded():
                 functions=["litex.gen.fhdl.namer._build_signal_name_dict (bounded)"], samples=[dict(bounded="_build_signal_name_dict", evaluations=evals)])
 
 def cases(tier):
-    return [Case("get_name(dict)", c_get_name, "dict"), Case("get_name(override)", c_get_name, "override"), Case("collision-witness", c_collision_witness), Case("reserved", c_reserved),
+    return [Case("get_name(dict)", c_get_name, "dict"), Case("get_name(override)", c_get_name, "override"), Case("get_name(stale port attributes)", c_get_name, "stale-port-attributes"), Case("collision-witness", c_collision_witness), Case("reserved", c_reserved),
             Case("corpus", c_corpus), Case("determinism", c_determinism), Case("name_dict(bounded)", c_name_dict_bounded)]
 
 ASSUMPTIONS = ["z3 sequence theory for strings; f-string formatting of symbolic integers is turned into int.to.str terms by marker strings",
